@@ -17,7 +17,8 @@ BadCps    == {<<>>, <<"110000">>, <<"00G1">>, <<"0041", "-">>, <<"-", "005A">>, 
 GoodProps == {<<"PVALID">>, <<"UNASSIGNED">>, <<"ID_DIS", " or ", "FREE_PVAL">>, <<"CONTEXTJ", " or ", "CONTEXTO">>}
 BadProps  == {<<>>, <<"BOGUS">>, <<"PVALID", " or ", "BOGUS">>, <<"PVALID", " or ">>, <<" or ", "PVALID">>,
               <<"ID_DIS", " or ", "FREE_PVAL", " or ", "PVALID">>, <<" ", "PVALID">>, <<"PVALID", " ">>, <<"pvalid">>, <<"PVALIĐ">>, <<"ID_DIS", " or ", "FREE_PVAŁ">>}
-Descs     == {<<>>, <<"LATIN CAPITAL LETTER A">>, <<"a", ",", "b">>, <<"x", ",", ",", "y">>, <<"this", " or ", "that">>}
+Descs     == {<<>>, <<"LATIN CAPITAL LETTER A">>, <<"a", ",", "b">>, <<"x", ",", ",", "y">>, <<"this", " or ", "that">>,
+              <<"SPACE", " ">>, <<" ">>}      \* descriptions ending in, or consisting of, white space
 
 Row(c, p, d) == c \o <<",">> \o p \o <<",">> \o d
 GoodRows == {Row(c, p, d) : c \in GoodCps, p \in GoodProps, d \in Descs}
@@ -29,8 +30,10 @@ BadRows  == {Row(c, p, <<"d">>) : c \in BadCps, p \in {<<"PVALID">>}}
 SomeRows == {Row(<<"0041">>, <<"PVALID">>, <<"a", ",", "b">>), Row(<<"0041", "-", "005A">>, <<"ID_DIS", " or ", "FREE_PVAL">>, <<>>),
              Row(<<"10FFFF">>, <<"UNASSIGNED">>, <<"d">>),
              <<>>, <<"0041", ",", "PVALID">>, Row(<<"00G1">>, <<"PVALID">>, <<"d">>), Row(<<"0041">>, <<"BOGUS">>, <<"d">>),
-             Row(<<"0041">>, <<"ID_DIS", " or ", "FREE_PVAL", " or ", "PVALID">>, <<"d">>)}
-Headers  == {<<"Codepoint", ",", "Property", ",", "Description">>, <<>>, <<"0041", ",", "PVALID", ",", "not a header">>}
+             Row(<<"0041">>, <<"ID_DIS", " or ", "FREE_PVAL", " or ", "PVALID">>, <<"d">>),
+             Row(<<"0041">>, <<"PVALID">>, <<"not UTF-8: ", "<BAD-UTF8>">>)}
+Headers  == {<<"Codepoint", ",", "Property", ",", "Description">>, <<>>, <<"0041", ",", "PVALID", ",", "not a header">>,
+             <<"Codepoint", ",", "Property", ",", "Descripci", "<BAD-UTF8>", "n">>}
 Terms    == {"\n", "\r\n"}
 
 VARIABLES file, mode
@@ -55,8 +58,11 @@ Spec == Init /\ [][Next]_vars
 Its == Items(MCHexVal, file)
 
 \* rows are delivered in file order, the header is skipped, errors carry the physical line number
-OneItemPerDataLine == Len(Its) = Len(file) - 1
-LineNumbers == \A i \in 1..Len(Its) : ("err" \in DOMAIN Its[i]) => Its[i].err = i + 1
+\* (an undecodable header is reported as an I/O error item instead of being skipped)
+Shift == IF BadUtf8(file[1]) THEN 0 ELSE 1
+OneItemPerDataLine == Len(Its) = Len(file) - Shift
+LineNumbers == \A i \in 1..Len(Its) : ("err" \in DOMAIN Its[i]) => Its[i].err = i + Shift
+UndecodableLinesReported == \A i \in 1..Len(Its) : ("ioerr" \in DOMAIN Its[i]) <=> BadUtf8(file[i + Shift])
 
 \* a well-formed row reads back exactly what it says
 RoundTrip == mode = "one" =>
